@@ -268,6 +268,25 @@ def run_case(case, ctx):
             lo, hi = ps[:, 0], ps[:, -1]
             if not ((lo <= p + 1e-9 * (1 + numpy.abs(p))) & (p <= hi + 1e-9 * (1 + numpy.abs(p)))).all():
                 ctx.violation(K + "predict/mean-outside-min-max", "min <= predict <= max violated", cfg=cfg)
+    # ---- the caller's joblib configuration (a process-based backend with several jobs, set around a whole script): the
+    # three prediction methods answer as they do without it
+    if case["sub"] % 6 == 0:
+        import joblib
+        Qj = q["float64"]
+        try:
+            ref_j = (numpy.asarray(ir.predict_all(Qj), dtype=float), numpy.asarray(ir.predict(Qj), dtype=float),
+                     numpy.asarray(ir.predict_sorted(Qj), dtype=float))
+            with joblib.parallel_backend("loky", n_jobs=2):
+                got_j = (numpy.asarray(ir.predict_all(Qj), dtype=float), numpy.asarray(ir.predict(Qj), dtype=float),
+                         numpy.asarray(ir.predict_sorted(Qj), dtype=float))
+            ctx.hit("predict.under_process_backend")
+            for nm_, a_, b_ in zip(("predict_all", "predict", "predict_sorted"), ref_j, got_j):
+                if a_.shape != b_.shape or not numpy.array_equal(a_, b_, equal_nan=True):
+                    ctx.violation(K + "predict/depends-on-joblib-backend/%s" % nm_, "%s inside joblib.parallel_backend('loky', "
+                                  "n_jobs=2) differs from the same call outside" % nm_, cfg=cfg)
+                    break
+        except Exception as e:
+            ctx.violation(K + "predict/raised-under-process-backend/%s" % type(e).__name__, str(e)[:150], cfg=cfg)
     # ---- history: the same instance fitted again (same number of members) and asked about the SAME array objects,
     # then about one of them refilled in place
     try:
